@@ -40,6 +40,7 @@ type Harness struct {
 	TimeLimit map[string]int // seconds per entry
 	Overlay   map[string]string
 	Includes  []string
+	Assumes   []string
 }
 
 type entrySpec struct {
@@ -124,6 +125,8 @@ func parseHarness(file string) (*Harness, error) {
 			for k, v := range tierKV(arg) {
 				h.TimeLimit[k] = int(v)
 			}
+		case "assume": // //vx:assume <free text>: an assumption of the harness, copied into the evidence file
+			h.Assumes = append(h.Assumes, arg)
 		case "include": // //vx:include <file relative to the harness dir>: extra file of the same package (shared models)
 			h.Includes = append(h.Includes, arg)
 		case "overlay": // //vx:overlay <repo-relative path> <file relative to harness dir>
@@ -236,6 +239,8 @@ func loadHarness(h *Harness, tier string, repo string) (*loaded, error) {
 				}
 			case "noop":
 				h.Noop = append(h.Noop, arg)
+			case "assume":
+				h.Assumes = append(h.Assumes, arg)
 			case "bodies":
 				for _, bb := range strings.Split(arg, ",") {
 					if bb = strings.TrimSpace(bb); bb != "" {
@@ -627,6 +632,17 @@ func main() {
 			continue
 		}
 		ev.LoadS += l.load.Seconds()
+		for _, a := range h.Assumes {
+			ev.Assumptions = append(ev.Assumptions, filepath.Base(f)+": "+a)
+		}
+		if ps := h.Params; len(ps) > 0 {
+			for name, kv := range ps {
+				if v, ok := kv[*tier]; ok {
+					ev.Bounds[filepath.Base(f)+":"+name] = v
+				}
+			}
+		}
+		ev.Bounds[filepath.Base(f)+":loop-unwinding-limit"] = h.Unwind
 		reached := map[string]int{}
 		for _, e := range h.Entries {
 			if !e.Tiers[*tier] || (*only != "" && e.Name != *only) {
